@@ -384,3 +384,16 @@ def truncate_run(run, ts_path, tokens, n, cap, max_images, extra_calls=None, tim
     j = json.load(open(out))
     j["witness_file"] = wit
     return j
+
+
+HARNESS_ASAN = os.path.join(HARNESS_DIR, "target-asan", "x86_64-unknown-linux-gnu", "release", "sodg-verif-harness")
+
+
+def build_harness_asan():
+    """the same harness (and sodg) built with AddressSanitizer on the nightly toolchain, debug assertions on"""
+    env = {"CARGO_NET_OFFLINE": "true", "RUSTFLAGS": "-Zsanitizer=address"}
+    p = sh(["cargo", "+nightly", "build", "--release", "--offline", "--target", "x86_64-unknown-linux-gnu", "--target-dir", "target-asan"],
+           cwd=HARNESS_DIR, env=env, timeout=2400, check=False)
+    if p.returncode != 0:
+        raise ToolError("ASan harness build failed\n" + p.stdout[-4000:])
+    return HARNESS_ASAN
